@@ -116,3 +116,19 @@ Example C16_ex :
   /\ set_value_at_pos [[0; 1]; [0; 1; 2]] [1; 2; 3; 4; 5; 6] (Scalar 9) [Some 1; None] = Ok [1; 2; 3; 9; 9; 9].
 Proof. vm_compute. repeat split; intros; intuition (subst; reflexivity || congruence). Qed.
 Print Assumptions C16_ex.
+
+(* ---- get_dim_range and get_coord_index as READ FROM THE SOURCE (Gen/Source.v is regenerated from
+   soundevent/arrays/dimensions.py on every run; one axis as (coordinate, value) pairs; pandas'
+   get_slice_bound is the model's slice_bound_right): equal to the model on every input. ---- *)
+From SE Require Gen.Source Gen.SrcArrays.
+From SE Require Import Gen.Prelude.
+
+Theorem C16_src_get_dim_range : forall a,
+  Source.get_dim_range a tt = match get_dim_range (coords a) with Some r => Ok r | None => Err EValue end.
+Proof. exact SrcArrays.range_model. Qed.
+Print Assumptions C16_src_get_dim_range.
+
+Theorem C16_src_get_coord_index : forall a v r,
+  Source.get_coord_index a tt v r = get_coord_index (coords a) v r.
+Proof. exact SrcArrays.src_get_coord_index. Qed.
+Print Assumptions C16_src_get_coord_index.
